@@ -2,9 +2,10 @@ import Solvor.Common.Proto
 import Solvor.Search.Model
 /-! Search: line-protocol handler. One request line in, one reply line out.
 
-request `["run", solver, minimize, fs, coins, params, tol, cands, implObj, implFSol, implEvals, bounds, point]`
+request `["run", solver, minimize, fs, starts, coins, params, tol, cands, implObj, implFSol, implEvals, bounds, point]`
   solver   : "anneal" | "tabu" | "lns" | "alns" | "evolve" | "de" | "pso" | "bayes" | "nm"
   fs       : every value the recording proxy saw, in call order, user's sign (rationals)
+  starts   : objective at the start point(s) handed to the solver (user's sign)
   coins    : one Bool per evaluation index (accept decision observed for that candidate; padded with false)
   params   : naturals, per solver
                anneal [iters]                       tabu  [cooldown, maxNoImprove, stopAt]
@@ -90,15 +91,15 @@ def toPair? (v : Val) : Option (Rat × Rat) :=
 
 def handle (line : String) : String :=
   match request line with
-  | some ("run", [solver, m, fs, coins, ps, tol, cands, iobj, ifsol, ievals, bounds, point]) =>
-    match solver.toStr?, m.toBool?, fs.toRats?, coins.toArr?, ps.toNats?, tol.toOpt? Val.toRat?,
+  | some ("run", [solver, m, fs, starts, coins, ps, tol, cands, iobj, ifsol, ievals, bounds, point]) =>
+    match solver.toStr?, m.toBool?, fs.toRats?, starts.toRats?, coins.toArr?, ps.toNats?, tol.toOpt? Val.toRat?,
           cands.toNatss?, iobj.toRat?, ifsol.toRat?, ievals.toNat? with
-    | some solver, some m, some fs, some coins, some ps, some tol, some cands, some iobj, some ifsol,
+    | some solver, some m, some fs, some starts, some coins, some ps, some tol, some cands, some iobj, some ifsol,
       some ievals =>
       match coins.mapM Val.toBool?, runSolver solver m fs.toArray ((coins.filterMap Val.toBool?).toArray) ps
               (tol.getD 0) cands with
       | some _, some out =>
-        let chk := checkResult m fs iobj ifsol ievals fs.length
+        let chk := checkResult m fs starts iobj ifsol ievals
         let inb : Val :=
           match bounds.toArr?, point.toRats? with
           | some bs, some p =>
@@ -108,7 +109,7 @@ def handle (line : String) : String :=
           | _, _ => Val.null
         (Val.arr (out ++ [Val.bool chk, inb])).render
       | _, _ => err "bad solver/params"
-    | _, _, _, _, _, _, _, _, _, _ => err "bad arguments"
+    | _, _, _, _, _, _, _, _, _, _, _ => err "bad arguments"
   | _ => err "bad request"
 
 end Solvor.Search
